@@ -35,7 +35,7 @@ class InterruptableThread(threading.Thread):
         """
         try:
             self.result = self.func(*self.args, **self.kwargs)
-        except Exception:
+        except (Exception, SystemExit):
             self.exc_info = sys.exc_info()
 
     @staticmethod
